@@ -14,6 +14,15 @@ def handlePeaks (op : String) (args : List String) : Option String :=
       -- `sepfoot <min_separation>` → the (dy,dx) offsets of the separation neighbourhood, raster order
       let sep ← parseRat? sep
       some ("ok " ++ joinSp ((sepOffsets sep).map fun o => s!"{o.1},{o.2}"))
+  | "irafsep", [[given, fwhm, mf]] => do
+      -- `irafsep <min_separation|none> <fwhm> <minsep_fwhm>` → the separation in force and the kind of neighbourhood
+      let given ← (if given == "none" then some none else (parseRat? given).map some)
+      let fwhm ← parseRat? fwhm; let mf ← parseRat? mf
+      some (match irafMinSep given fwhm mf with
+        | none => "err ValueError"
+        | some s => "ok " ++ showRat s ++ " " ++ (match neighbourhood s with
+            | .kernelFootprint => "kernel"
+            | .disk offs => joinSp (offs.map fun o => s!"{o.1},{o.2}")))
   | "peaks", [hd, os, ds, ts, ms] => do
       let [ny, nx, by_, bx, np] := hd | none
       let ny ← parseNat? ny; let nx ← parseNat? nx; let by_ ← parseNat? by_; let bx ← parseNat? bx
